@@ -87,6 +87,15 @@ impl Doc {
     }
 }
 
+/// Size classes 3 ("huge") and 4 ("long tokens") may contain free text far longer than a chunk.
+pub fn long_text(rng: &mut Rng, size: usize, pct: usize) -> Option<Vec<u8>> {
+    if size < 3 || cfg!(miri) || rng.below(100) >= pct {
+        return None;
+    }
+    let len = *rng.pick(&[4500usize, 17000, 40000, 70000]) + rng.below(100);
+    Some((0..len).map(|_| *rng.pick(b"abcdefghij klmnop;0123456789-_")).collect())
+}
+
 pub fn line_col(bytes: &[u8], off: usize) -> (usize, usize) {
     let mut line = 1;
     let mut start = 0;
